@@ -1,5 +1,5 @@
 PROP = {
-    "thm": "Umya.Thm.C13",
+    "thm": ["Umya.Thm.C13", "Umya.Thm.C13Gen"],
     "harness": "c13",
     "level": "proof",
     "stateful": False,
@@ -16,9 +16,21 @@ PROP = {
                   "one) - and the temp name is not a symlink, and ALL fault plans (creation fails; every write call may "
                   "fail or accept any number of bytes; rename fails; remove fails).  write_writer on an arbitrary failing sink is "
                   "proved to return ok-with-complete-output or err-with-a-proper-prefix (never panic).  The protocol as it was "
-                  "(no explicit flush) is refuted by a decided 3-byte witness.  The model is tied to the code on every run by "
-                  "fault injection against the real API (failing sinks at every write-call index; child processes under "
-                  "RLIMIT_FSIZE=k and with the temp name symlinked to /dev/full).",
+                  "(no explicit flush) is refuted by a decided 3-byte witness.  The PROTOCOL of each function is no longer only "
+                  "hand-copied: tools/extract_proto.py regenerates it from the current source on every run (Model/Gen/Proto.lean: "
+                  "for xlsx::write, write_light, csv::write, the three write_writer functions, write_with_password(_light) with "
+                  "try_encrypt inlined, set_password - the effectful calls File::create, BufWriter::new, write_all, flush, drop, "
+                  "fs::rename, fs::remove_file, cfb::create, write_compound_file, File::open, read_to_end, make_buffer in source "
+                  "order, what is done with every Result (`?`, stored, discarded, matched), the error-path blocks and the "
+                  "scope-end drops explicit, callees inlined; the temp-name expression), and C13_protocol_matches_source proves "
+                  "that running the regenerated program on the file-system model yields exactly the final state, the whole "
+                  "history and the ok/error result of savePath / savePw / setPw / writeWriter for ALL fault plans, outputs, "
+                  "destinations with an extension and file systems (generic soundness of the normal form exec_norm + one closed "
+                  "`decide` per function, so equivalent control flow - `?` vs match vs is_ok() chains, helpers, renamed locals - "
+                  "still proves and a reordered, unchecked or missing call breaks the build); C13_tmp_name_matches_source does "
+                  "the same for path.with_extension(ext + \"tmp\").  What the system calls, BufWriter and cfb DO is still tied "
+                  "to the code by fault injection against the real API on every run (failing sinks at every write-call index; "
+                  "child processes under RLIMIT_FSIZE=k and with the temp name symlinked to /dev/full).",
     "level_note": "Trusted/assumed: Lean kernel + 3 standard axioms; faithfulness of the hand model as exercised by the correspondence "
                   "stream; std::io::BufWriter's buffering/flush/drop rule and Write::write_all (modelled from std's source, not "
                   "verified); POSIX semantics of open/write/rename/unlink (rename(2) replaces the destination atomically); the cfb "
@@ -27,7 +39,8 @@ PROP = {
     "expect_theorems": ["C13_all_or_nothing", "C13_all_or_nothing_password", "C13_all_or_nothing_set_password",
                         "C13_observer", "C13_observer_only_rename", "C13_observer_password",
                         "C13_all_or_nothing_fresh", "C13_observer_fresh", "C13_observer_password_fresh", "C13_observer_any",
-                        "C13_sink", "C13_sink_no_panic", "C13_unflushed_fails", "C13_csv_unwrap_fails"],
+                        "C13_sink", "C13_sink_no_panic", "C13_unflushed_fails", "C13_csv_unwrap_fails",
+                        "C13_protocol_matches_source", "C13_tmp_name_matches_source", "C13_make_buffer_failure"],
     "rule": "(a) sinks: kind in {xlsx, light, csv, password(container writer, via hook)} x workbook {small, big, empty} x per-call "
             "acceptance limit {all, 1, 100, 1000, 8192, 10000 bytes} x failing call index i (every i up to the number of calls of a "
             "fault-free save when that is small, else evenly spaced + boundaries) x {Err, Ok(0)}; "
@@ -48,6 +61,17 @@ PROP = {
         "POSIX open(O_CREAT|O_TRUNC)/write/rename/unlink semantics on a flat name space (no directories, permissions, hard links)",
         "cfb 0.10 compound-file writer: opaque sequence of checked write_all calls (seeks / sector rewrites not modelled); its "
         "error propagation is tied by the harness only (every write-call index via the hook, RLIMIT_FSIZE steps)",
+        "tools/extract_proto.py + tools/rustfrag.py (the protocol translator, ~870 + 750 lines of Python): the syntax-directed "
+        "translation of a function body into continuation form, its table of effectful calls (anything mentioning fs / File / "
+        "OpenOptions / BufWriter / io / cfb or an I/O method name that is not in the table is refused: fallback, never silently "
+        "pure), inlining of callees of the same file and of helper/crypt.rs::try_encrypt, the scope-end drop rule for an owned "
+        "BufWriter / File (declaration order reversed; temporaries holding a writer are refused), substitution of pure path "
+        "expressions; make_buffer (fallible, no I/O), encrypt_parts (no I/O) and write_compound_file (checked to consist of "
+        "`?`-checked / returned library calls only) are opaque by name",
+        "the meaning of one protocol step (Model/SaveProto.lean `step`: File::create = sysCreate, write_all through the "
+        "BufWriter = bufWriteAll, ... one writer register, the buffer last computed or read) and the model of "
+        "Path::extension / with_extension on List Char (splitExt: the part of the last component after its final dot; none "
+        "for `.hidden`, `..`, no dot; trailing slashes outside the model), written from std's documentation",
         "the harness' own observation code (symlink_metadata + O_NOFOLLOW bounded reads, structural completeness check of "
         "encrypted files instead of byte equality because salts are random)",
     ],
@@ -56,7 +80,13 @@ PROP = {
         "directory); the destination path has a UTF-8 extension (otherwise the functions panic before any I/O - not an I/O failure)",
         "rename(2) is atomic for concurrent observers and a failed system call has no effect other than the modelled one",
         "ErrorKind::Interrupted retries are not modelled",
-        "the complete output is built in memory before the first write (true for all modelled functions)",
+        "the complete output is built in memory before the first write (true for all modelled functions; regenerated: the "
+        "`compute` step precedes the `writeAll` step in every regenerated protocol)",
+        "C13_protocol_matches_source: make_buffer succeeds (c.cok; a failing make_buffer is an in-memory error before / "
+        "between the system calls, savePath / savePw have no such parameter: C13_make_buffer_failure states what the "
+        "regenerated xlsx::write / write_light / write_with_password(_light) do then - error, the empty temp file created and "
+        "removed again resp. no system call at all); read faults of set_password's read_to_end are not in "
+        "the fault plan; `e` of every Err(e) is abstracted to one error value (ok / error outcomes only)",
     ],
     "partial_clauses": [
         "process kills at arbitrary instants and concurrent observers on the real file system: only explored (50 SIGKILLs per "
@@ -68,7 +98,12 @@ PROP = {
         "excluded from the theorems' hypotheses; with an EMPTY output (csv of an empty sheet) and the temp name symlinked to a "
         "device, the save succeeds without a write call and the symlink itself is renamed over the destination (not generated)",
         "write_with_password / set_password: the theorem is about an abstract sequence of checked writes; that cfb 0.10 returns "
-        "every write error (and that the explicit stream/file flushes surface the buffered tail) is checked by fault injection only",
+        "every write error (and that the explicit stream/file flushes surface the buffered tail) is checked by fault injection only; "
+        "the regenerated protocol has cfb::create and write_compound_file as two opaque steps (the translator only checks that "
+        "every library call inside write_compound_file is `?`-checked or returned)",
+        "protocol regeneration: a function whose body leaves the translator's fragment (closures with effects, loops with "
+        "effects, a writer held by a temporary or a struct field, and_then / map chains on a Result, an unknown function) falls "
+        "back to the committed snapshot with a reason in the evidence; for such a function the tie is fault injection alone",
     ],
     "technique": "Lean 4 proof over a file-system/fault-plan model + fault-injection correspondence (failing sinks, RLIMIT_FSIZE, /dev/full)",
 }
